@@ -1,3 +1,66 @@
-(* C10 — property theorems (statements only; proofs live in Proofs.v). *)
+(* C10 — property theorems (statements only; proofs live in Proofs.v).
+   erase forgets Python object identities; wf = what the real constructors produce + dict keys are strings other than
+   "#type" (guard of finding int_channel_key); consistent = one identifier, one object (guard of finding
+   dup_identifier_in_transaction); be_holds P be = the backend maps the identifier of every named node of P to that
+   node's own document.  Text level (json text, expression strings, float repr) is outside the model. *)
 From Coq Require Import String List ZArith QArith Bool.
-Require Import QV.C10.Model QV.C10.Proofs.
+Require Import QV.C10.Model QV.C10.Spec QV.C10.Proofs QV.C10.Witness.
+Import ListNotations.
+Open Scope string_scope.
+
+(* get_serialization_data + encoder followed by decoder + constructor gives back the same object, for every class and
+   any nesting, when references resolve to the named children *)
+Theorem C10_roundtrip_node : forall p rs, wf p = true ->
+  (forall n i, In n (descendants p) -> pt_id n = Some i -> forall st, rs st i = Ok (n, st)) ->
+  forall st, exists p' st', decode rs (to_data p) st = Ok (p', st') /\ erase p' = erase p.
+Proof. exact roundtrip_node. Qed.
+Print Assumptions C10_roundtrip_node.
+
+(* a fresh PulseStorage over a backend that holds the documents of P's named nodes loads P back (enough fuel is given:
+   termination of the reference chase is part of the statement) *)
+Theorem C10_storage_partial : forall P be i, wf P = true -> consistent P -> be_holds P be -> pt_id P = Some i ->
+  exists p' st', load (length (nodes P)) be fresh_l i = Ok (p', st') /\ erase p' = erase P.
+Proof. exact load_roundtrip. Qed.
+Print Assumptions C10_storage_partial.
+
+(* full statement (open: that `store` establishes be_holds is only tested by the correspondence, not proved) *)
+Definition C10_storage_statement : Prop := forall P s' i, wf P = true -> consistent P -> pt_id P = Some i ->
+  store (empty_s []) P = Ok s' ->
+  exists p' st', load (length (nodes P)) (s_be s') fresh_l i = Ok (p', st') /\ erase p' = erase P.
+
+(* loaded once: after loading identifier i the temporary storage serves i; every later reference gets that object *)
+Theorem C10_sharing_partial : forall P be, wf P = true -> consistent P -> be_holds P be ->
+  forall f n i, In n (nodes P) -> pt_id n = Some i -> (length (nodes n) <= f)%nat ->
+  forall st, cache_ok P st -> forall q st', load f be st i = Ok (q, st') ->
+  lookup i (l_cache st') = Some q /\ (forall st'', load f be st' i = Ok (q, st'') -> st'' = st').
+Proof.
+  intros P be Hw Hc Hb f n i Hn Hi Hf st Hst q st' E.
+  pose proof (load_cached P be Hw Hc Hb f n i Hn Hi Hf st Hst q st' E) as L. split; [exact L|].
+  intros st'' E2. destruct f; cbn [load] in E2; rewrite L in E2; congruence.
+Qed.
+Print Assumptions C10_sharing_partial.
+
+Definition C10_sharing_statement : Prop := forall P be i p' st', wf P = true -> consistent P -> be_holds P be ->
+  pt_id P = Some i -> load (length (nodes P)) be fresh_l i = Ok (p', st') ->
+  forall a b j, In a (nodes p') -> In b (nodes p') -> pt_id a = Some j -> pt_id b = Some j -> a = b.
+
+(* every stored document stands alone: named sub-templates appear as reference nodes, never inline (open; tested) *)
+Definition C10_documents_statement : Prop := forall p, wf p = true -> doc_fields_ok (to_data p) = true.
+
+(* the hypotheses are satisfiable by a nested template with a shared named child, stored by the model's own store *)
+Theorem C10_example_hypotheses : wf ex_P = true /\ consistent ex_P /\ pt_id ex_P = Some "s" /\
+  (exists s', store (empty_s []) ex_P = Ok s' /\ be_holds ex_P (s_be s')) /\ doc_fields_ok (to_data ex_P) = true.
+Proof. exact ex_P_ok. Qed.
+Print Assumptions C10_example_hypotheses.
+
+(* finding int_channel_key: the faithful model loses integer channel ids used as dict keys *)
+Theorem C10_roundtrip_refuted_int_key : exists p, pt_id p = None /\
+  forall rs st p' st', decode rs (to_data p) st = Ok (p', st') -> erase p' <> erase p.
+Proof. exact refuted_int_key. Qed.
+Print Assumptions C10_roundtrip_refuted_int_key.
+
+(* finding dup_identifier_in_transaction: store succeeds, a fresh storage loads a different pulse *)
+Theorem C10_storage_refuted_dup_identifier : exists P s' p' st', wf P = true /\
+  store (empty_s []) P = Ok s' /\ load 8 (s_be s') fresh_l "s" = Ok (p', st') /\ erase p' <> erase P.
+Proof. exact refuted_dup_identifier. Qed.
+Print Assumptions C10_storage_refuted_dup_identifier.
